@@ -65,9 +65,25 @@ def _prefetch(tier):
     if not _SELFTEST:
         jobs += [(("sany", m), None, None) for m in ("AsciiMap_mc", "AsciiMap_trace", "Blueprint_mc")]
     if jobs:
-        with ThreadPoolExecutor(max_workers=len(jobs)) as ex:
-            for key, res in ex.map(one, jobs):
-                _CACHE[key] = res
+        ex = ThreadPoolExecutor(max_workers=len(jobs))
+        for job in jobs:
+            _PENDING[job[0]] = ex.submit(one, job)
+        ex.shutdown(wait=False)
+
+
+_PENDING = {}
+
+
+def _result(key):
+    """the TLC result for `key`: waits for that run only, so checking the lattice maps overlaps with the remaining TLC runs"""
+    if key in _PENDING:
+        _CACHE[key] = _PENDING.pop(key).result()[1]
+    return _CACHE[key]
+
+
+def _join_prefetch():
+    for key in list(_PENDING):
+        _result(key)
 
 
 def _tlc_cached(module, cfg, **kw):
@@ -185,7 +201,10 @@ def run_asciimap(rep, tier, seed):
         never = [a for a in ("PutAny", "PunchAny") if res.coverage.get(a, (0, 0))[1] == 0]
         if never:
             raise tlc.MachineryError("vacuous: actions never taken in AsciiMap_mc: %s" % never)
-    eres = _tlc_cached("AsciiMap_mc", "AsciiMap_emit%s.cfg" % suffix, workers=1, coverage=True, timeout=1500)
+    for m in ("AsciiMap_mc", "AsciiMap_trace", "Blueprint_mc"):
+        if ("sany", m) in _PENDING:
+            _result(("sany", m))
+    eres = _result(("AsciiMap_mc", "AsciiMap_emit%s.cfg" % suffix))
     rep.add_tlc("cases:AsciiMap_emit%s.cfg" % suffix, eres)
     _verdict_of_tlc(rep, eres, "AsciiMap", ("PutAny", "PunchAny"))
     cases = [p for p in eres.prints if isinstance(p, dict) and "tp" in p]
@@ -374,7 +393,7 @@ def run_blueprints(rep, tier, seed):
                           {"direction": "tlc", "trace": res.violation["trace"][:20000]})
     docs = []
     for fam in FAMILIES:
-        eres = _CACHE[("Blueprint_mc", "Blueprint_emit%s.cfg" % suffix, fam)]
+        eres = _result(("Blueprint_mc", "Blueprint_emit%s.cfg" % suffix, fam))
         rep.add_tlc("documents:Blueprint_emit%s.cfg:%s" % (suffix, fam), eres)
         _verdict_of_tlc(rep, eres, "Blueprint", ())
         docs += [p for p in eres.prints if isinstance(p, dict) and "doc" in p]
@@ -412,8 +431,11 @@ def run(rep, tier, seed):
     gb.quiet()
     rep.exhaustive = True
     _prefetch(tier)
-    run_asciimap(rep, tier, seed)
-    run_blueprints(rep, tier, seed)
+    try:
+        run_asciimap(rep, tier, seed)
+        run_blueprints(rep, tier, seed)
+    finally:
+        _join_prefetch()
     rep.assume(
         "a text map is a picture of the lattice in armi's own grid coordinates (rows = equal Y, top first; tokens = increasing X); the drawing "
         "regions (quadrant, first third without the 120-degree edge, left-padded hexagons) are transcribed from the asciimaps docstrings",
